@@ -204,8 +204,8 @@ func runPair(p Pair) result { //nolint:cyclop,gocognit
 	churnSSRC := uint32(0x100000)
 	for ph := 0; ph < p.Phases; ph++ {
 		for i := 0; i < p.PerPhase; i++ {
-			if p.Workload == "stream-churn" && i%1000 == 0 {
-				// a batch of 100 short-lived pairs of streams with SSRCs never used before: bound together, 20 packets each way with a gap and
+			if p.Workload == "stream-churn" && i%250 == 0 {
+				// a batch of 100 short-lived pairs of streams with SSRCs never used before: bound together, 4 packets each way with a gap and
 				// feedback about them while report / NACK ticks run over all of them, then unbound one after the other while ticks go on.
 				// Memory may depend on the streams bound at the moment, not on how many have come and gone.
 				type churned struct {
@@ -221,8 +221,8 @@ func runPair(p Pair) result { //nolint:cyclop,gocognit
 					c.w, c.r = ic.BindLocalStream(c.li, rtpSink), ic.BindRemoteStream(c.ri, c.src)
 					batch[j] = c
 				}
-				for k := uint16(1); k <= 21; k++ {
-					if k == 7 {
+				for k := uint16(1); k <= 5; k++ {
+					if k == 3 {
 						continue
 					}
 					for _, c := range batch {
@@ -240,9 +240,9 @@ func runPair(p Pair) result { //nolint:cyclop,gocognit
 				}
 				for _, c := range batch {
 					if raw, err := rtcp.Marshal([]rtcp.Packet{
-						&rtcp.ReceiverReport{SSRC: 9, Reports: []rtcp.ReceptionReport{{SSRC: c.li.SSRC, LastSequenceNumber: 21}}},
+						&rtcp.ReceiverReport{SSRC: 9, Reports: []rtcp.ReceptionReport{{SSRC: c.li.SSRC, LastSequenceNumber: 5}}},
 						&rtcp.SenderReport{SSRC: c.ri.SSRC, NTPTime: uint64(i) << 32, RTPTime: 1},
-						&rtcp.TransportLayerNack{SenderSSRC: 9, MediaSSRC: c.li.SSRC, Nacks: []rtcp.NackPair{{PacketID: 7}}},
+						&rtcp.TransportLayerNack{SenderSSRC: 9, MediaSSRC: c.li.SSRC, Nacks: []rtcp.NackPair{{PacketID: 3}}},
 					}); err == nil {
 						rtcpSrc.Push(raw)
 						_, _, _ = rtcpIn.Read(buf, nil)
@@ -369,7 +369,9 @@ func TestMemoryBounded(t *testing.T) {
 		if err := json.Unmarshal(b, &p); err != nil {
 			t.Fatalf("replay file: %v", err)
 		}
-		if res := runPair(p); res.Verdict != "" {
+		res := runPair(p)
+		t.Logf("%s / %s: heap after each phase %v, objects %v, after Close %d, skipped %q", p.Member, p.Workload, res.Phases, res.Objects, res.AfterStop, res.Skipped)
+		if res.Verdict != "" {
 			t.Fatalf("%s / %s: %s", p.Member, p.Workload, res.Verdict)
 		}
 
@@ -378,7 +380,7 @@ func TestMemoryBounded(t *testing.T) {
 	phases, per := kit.EnvInt("VERIF_C12_PHASES", 4), kit.EnvInt("VERIF_C12_PER_PHASE", 15000)
 	shard, nshards := kit.Shard()
 	rec := kit.NewRecorder("C12", "memory-phases",
-		fmt.Sprintf("every interceptor x workload {in-order, 5%% loss, 5%% duplicates, reordering, with periodic feedback, loss with feedback, retransmissions with lagging RFC 8888 feedback, 121 streams each way, 100 short-lived stream pairs bound, used and unbound every 1000 packets}: %d equal phases of %d packets each way; heap and object "+
+		fmt.Sprintf("every interceptor x workload {in-order, 5%% loss, 5%% duplicates, reordering, with periodic feedback, loss with feedback, retransmissions with lagging RFC 8888 feedback, 121 streams each way, 100 short-lived stream pairs bound, used and unbound every 250 packets}: %d equal phases of %d packets each way; heap and object "+
 			"count after two forced GCs at each phase boundary; growth over the last phases must stay below max(32 KiB, 0.5%%) / 200 objects, and the heap must return to the baseline after Unbind/Close; "+
 			"non-trivial = the interceptor keeps per-packet state; distinct by (interceptor, workload, seed)", phases, per))
 	idx := 0
